@@ -102,7 +102,7 @@ Definition foam_body (kvs : list (key * tree)) : str :=
 (* NativeFormatter.to_string on a plain dict *)
 Definition to_string_plain (kvs : list (key * tree)) : str := remove_trailing_spaces (native_body kvs).
 
-(* FoamFormatter: underscore keys removed at every dict level reachable through dicts *)
+(* FoamFormatter: underscore keys removed at every level of dict nesting (repaired: also inside lists) *)
 Fixpoint strip_us (t : tree) : tree :=
   match t with
   | Dict kvs => Dict ((fix go (l : list (key * tree)) : list (key * tree) :=
@@ -111,9 +111,11 @@ Fixpoint strip_us (t : tree) : tree :=
                          | (k, c) :: l' =>
                              if starts_with [c_us] (match k with KI z => Z_to_dec z | KS s => foam_format_string s end)
                              then go l'
-                             else (k, match c with Dict _ => strip_us c | _ => c end) :: go l'
+                             else (k, strip_us c) :: go l'
                          end) kvs)
-  | _ => t
+  | Lst ts => Lst ((fix go (l : list tree) : list tree :=
+                      match l with [] => [] | c :: l' => strip_us c :: go l' end) ts)
+  | Leaf _ => t
   end.
 Definition foam_to_string_plain (kvs : list (key * tree)) : str :=
   remove_trailing_spaces (foam_body (match strip_us (Dict kvs) with Dict k => k | _ => [] end)).
